@@ -397,6 +397,7 @@ class TemplatePostInit(Contract):
     id = "C16.TemplateBase.__post_init__"
     target = "sigma.processing.templates:TemplateBase.__post_init__"
     props = ("C16",)
+    cases = ("no-directories", "directories-in-force", "empty-directory-list")
     assumed = ["Jinja2 SandboxedEnvironment / loaders are external (outside the property's list)"]
 
     def setup(self, E):
@@ -415,11 +416,13 @@ class TemplatePostInit(Contract):
             return {}
         E.summaries["sigma.processing.templates:TemplateBase._load_vars_from_file"] = s_load
 
-    def args(self, I):
+    def args(self, I, case):
         cinfo = I.E.index.lookup("sigma.processing.templates:TemplateBase")
+        # allowed directories restrict WHERE a vars file may be; they are no opt-in (they are also derived from the pipeline file's location)
+        dirs = {"no-directories": None, "directories-in-force": (I.fresh("allowed_dir", "str"),), "empty-directory-list": ()}[case]
         me = SObj(cinfo, {"path": SOpt(z3.Bool(I.ctx.fresh_name("path_none")), I.fresh("path", "str")), "autoescape": False, "template": I.fresh("template", "str"),
                           "vars": SOpt(z3.Bool(I.ctx.fresh_name("vars_none")), I.fresh("vars", "str")), "allow_template_vars": I.fresh("allow_template_vars", "bool"),
-                          "vars_allowed_paths": None}, lazy=True)
+                          "vars_allowed_paths": dirs}, lazy=True)
         return {"self": me, "args": []}
 
     def raises(self, I, inp, exc):
@@ -827,6 +830,32 @@ class ResolverSourcePath(Contract):
             sp = I.force(k.get("source_path", a[1] if len(a) > 1 else None))
             I.ctx.require(sp == want, f"source_path == the pipeline file's own path {want!r} (got {sp!r})")
             I.ctx.require(not any(n in k for n in ("allow_template_vars", "vars_allowed_paths", "allow_external_sources")) and len(a) <= 2, "no opt-in argument is passed by the resolver")
+
+    def frame_ok(self, I, inp, obj, name):
+        return False
+
+
+@register
+class VarsExecutionAllowed(Contract):
+    """TemplateBase._vars_execution_allowed: true iff the caller's allow_template_vars or the documented environment variable (1 / true) -
+    whatever directories are in force"""
+    id = "C16.TemplateBase._vars_execution_allowed"
+    target = "sigma.processing.templates:TemplateBase._vars_execution_allowed"
+    props = ("C16",)
+    cases = ("no-directories", "directories-in-force", "empty-directory-list")
+
+    def setup(self, E):
+        install_env(E)
+        E.external_values["sigma.processing.templates.PYSIGMA_ALLOW_VARS_EXECUTION_ENV"] = "PYSIGMA_ALLOW_VARS_EXECUTION"
+
+    def args(self, I, case):
+        dirs = {"no-directories": None, "directories-in-force": (I.fresh("allowed_dir", "str"),), "empty-directory-list": ()}[case]
+        a = I.fresh("allow_template_vars", "bool")
+        me = SObj(I.E.index.lookup("sigma.processing.templates:TemplateBase"), {"allow_template_vars": a, "vars_allowed_paths": dirs}, lazy=True)
+        return {"self": me, "args": [], "a": a}
+
+    def post(self, I, inp, r):
+        I.ctx.require(ops.mk_bool_term(ops.truth(I, r)) == z3.Or(inp["a"].t, env_allows("PYSIGMA_ALLOW_VARS_EXECUTION")), "allow_template_vars or PYSIGMA_ALLOW_VARS_EXECUTION in {1, true}")
 
     def frame_ok(self, I, inp, obj, name):
         return False
